@@ -180,10 +180,10 @@ def _gen(rec, name, fn, **kw):
 
 
 class K3:
-    def __init__(self, rec, real_t):
+    def __init__(self, rec, real_t, nt=2):
         import sopht.numeric.eulerian_grid_ops as spne
 
-        kw = dict(real_t=real_t, num_threads=2)
+        kw = dict(real_t=real_t, num_threads=nt)
         self.curl = {r: _gen(rec, "curl_3d", spne.gen_curl_pyst_kernel_3d, reset_ghost_zone=r, **kw) for r in (True, False)}
         self.div = {r: _gen(rec, "divergence_3d", spne.gen_divergence_pyst_kernel_3d, reset_ghost_zone=r, **kw) for r in (True, False)}
         self.forcing = _gen(rec, "forcing_3d", spne.gen_update_vorticity_from_velocity_forcing_pyst_kernel_3d, **kw)
@@ -191,10 +191,10 @@ class K3:
 
 
 class K2:
-    def __init__(self, rec, real_t):
+    def __init__(self, rec, real_t, nt=2):
         import sopht.numeric.eulerian_grid_ops as spne
 
-        kw = dict(real_t=real_t, num_threads=2)
+        kw = dict(real_t=real_t, num_threads=nt)
         self.outplane = {r: _gen(rec, "outplane_2d", spne.gen_outplane_field_curl_pyst_kernel_2d, reset_ghost_zone=r, **kw) for r in (True, False)}
         self.inplane = _gen(rec, "inplane_2d", spne.gen_inplane_field_curl_pyst_kernel_2d, **kw)
         self.forcing = _gen(rec, "forcing_2d", spne.gen_update_vorticity_from_velocity_forcing_pyst_kernel_2d, **kw)
@@ -367,7 +367,12 @@ def run_rand(sh, rec):
     real_t = util.DT[sh["dtype"]]
     d = sh["dim"]
     rng = util.rng_for(sh["seed"], ID, "rand", d, sh["dtype"], sh["part"])
-    K = K3(rec, real_t) if d == 3 else K2(rec, real_t)
+    # half of the random shards build their kernels for a thread team LARGER than most grids have rows (16 threads, strips of 3..12
+    # rows among the shapes): a sweep re-arranged for "more threads than rows" only runs there
+    nt = 16 if (sh["part"] + (sh["dtype"] == "float32")) % 2 == 1 else 2
+    if nt == 16:
+        rec.count("shards_with_16_thread_kernels")
+    K = K3(rec, real_t, nt) if d == 3 else K2(rec, real_t, nt)
     mon = Mon(rec, sh["dtype"], d)
     for i in range(sh["nint"] + sh["nnoise"]):
         leg = "integer" if i < sh["nint"] else "noise"
